@@ -105,7 +105,8 @@ func genC19File(r *lib.Rng, tag string) string {
 		case 4:
 			t := fresh("t")
 			tables = append(tables, t)
-			ls = append(ls, "local "+t+" = {}")
+			// a table is not always initialised by a constructor
+			ls = append(ls, "local "+t+" = "+[]string{"{}", "{}", "setmetatable({}, {})", "mkobj(1)", "{} or nil"}[r.Intn(5)])
 		case 5:
 			ls = append(ls, "local "+fresh("u")+" = { x = 1, y = function() end }")
 		case 6:
@@ -173,13 +174,18 @@ func runC19(res *lib.Result, tier string, seed int64, args []string) error {
 		if wi%8 == 7 {
 			nf = 12 // > 200 symbols in the workspace
 		}
+		var blockFns [][3]string // file, qualified name, identifier: functions on block-local tables
 		many := wi%8 == 3 // more files than the symbol collector has workers (NumCPU+2): the refill path is used
 		if many {
 			nf = runtime.NumCPU() + 6 + r.Intn(8)
 		}
 		for fi := 0; fi < nf; fi++ {
 			if many {
-				files[fmt.Sprintf("f%d.lua", fi)] = fmt.Sprintf("function wsfun%dx%d(a)\n  return a\nend\nwsglob%dx%d = %d\n", wi, fi, wi, fi, fi)
+				// plus a function on a table that is local to a block, to a branch and to a function body
+				files[fmt.Sprintf("f%d.lua", fi)] = fmt.Sprintf("function wsfun%dx%d(a)\n  return a\nend\nwsglob%dx%d = %d\ndo\n  local Inner%dx%d = {}\n  function Inner%dx%d.run%dx%d(x) end\nend\nlocal function outer%dx%d()\n  local Nest%dx%d = {}\n  function Nest%dx%d:deep%dx%d() end\nend\n",
+					wi, fi, wi, fi, fi, wi, fi, wi, fi, wi, fi, wi, fi, wi, fi, wi, fi, wi, fi)
+				blockFns = append(blockFns, [3]string{fmt.Sprintf("f%d.lua", fi), fmt.Sprintf("Inner%dx%d.run%dx%d", wi, fi, wi, fi), fmt.Sprintf("run%dx%d", wi, fi)},
+					[3]string{fmt.Sprintf("f%d.lua", fi), fmt.Sprintf("Nest%dx%d.deep%dx%d", wi, fi, wi, fi), fmt.Sprintf("deep%dx%d", wi, fi)})
 				continue
 			}
 			src := genC19File(r.Fork(uint64(fi)), fmt.Sprintf("x%d", fi))
@@ -308,6 +314,33 @@ func runC19(res *lib.Result, tier string, seed int64, args []string) error {
 						res.AddViolation("impl-vs-spec", fmt.Sprintf("workspace/symbol %q (%d answers) has no entry of that name located at the declaration", q.qname, len(ws)), caseText, false)
 					}
 				}
+			}
+		}
+		// functions declared on tables that are local to a nested block / function body: findable by name
+		for k, bf := range blockFns {
+			if k%3 != 0 {
+				continue
+			}
+			ws, err := sess.WorkspaceSymbol(bf[1])
+			caseText := fmt.Sprintf("workspace/symbol %q; %s:\n%s", bf[1], bf[0], files[bf[0]])
+			if err != nil {
+				res.AddViolation("crash-or-timeout", err.Error(), caseText, false)
+				continue
+			}
+			res.Dist("wsquery.block-local-table")
+			ok := false
+			flines := strings.Split(files[bf[0]], "\n")
+			for _, w := range ws {
+				if sess.Rel(w.Location.URI) != bf[0] || w.Location.Range.Start.Line >= len(flines) {
+					continue
+				}
+				wname := strings.ReplaceAll(w.Name, ":", ".")
+				if wname == bf[1] && strings.Contains(flines[w.Location.Range.Start.Line], bf[2]+"(") {
+					ok = true
+				}
+			}
+			if !ok {
+				res.AddViolation("impl-vs-spec", fmt.Sprintf("workspace/symbol %q (%d answers) has no entry of that name on the line of the declaration", bf[1], len(ws)), caseText, false)
 			}
 		}
 		sess.Close()
